@@ -41,6 +41,10 @@ MergeRefinesConcat ==
                 M2 == Merge(<<S2, S1>>, <<AllAlive(S2), A>>, sizeOf, BlockSize)
             IN /\ DocSeq(M1) = Live(S1, A) \o DocSeq(S2) /\ SeekCorrect(M1)
                /\ DocSeq(M2) = DocSeq(S2) \o Live(S1, A) /\ SeekCorrect(M2)
+               \* per-source codecs, every order: the documents are the same, only sources of the merged store's codec may be stacked
+               /\ \A cs \in {<<TRUE, FALSE>>, <<FALSE, TRUE>>} :
+                    LET MS == MergeS(<<S1, S2>>, <<A, AllAlive(S2)>>, sizeOf, BlockSize, cs) IN
+                    DocSeq(MS) = Live(S1, A) \o DocSeq(S2) /\ SeekCorrect(MS)
                \* with another codec nothing is stacked: the result is the re-compressed store
                /\ MergeC(<<S1, S2>>, <<A, AllAlive(S2)>>, sizeOf, BlockSize, FALSE) = Recompress(<<S1, S2>>, <<A, AllAlive(S2)>>, sizeOf, BlockSize)
 =============================================================================
